@@ -17,6 +17,7 @@ type Clause struct {
 	Src   string
 	File  string
 	Line  int
+	Props []string // properties of the block segment the clause was written in
 }
 
 type Param struct{ Name, Type string }
@@ -35,6 +36,7 @@ type Contract struct {
 	LoopInv  map[int][]*Clause
 	LoopDec  map[int]*Clause
 	LoopMod  map[int][]string
+	LoopIter map[int][]*Clause // obligations at the end of every iteration (each back edge)
 	Assigns  []string // heap maps (Type.field / ghost field names) that may change; nil+!AssignsSet = unknown(everything)
 	AssignsSet bool
 	Props    []string
@@ -44,6 +46,7 @@ type Contract struct {
 	File     string
 	Line     int
 	Names    []string // explicit result names override
+	segProps []string // property tags of the block segment being parsed
 }
 
 type PureFunc struct {
@@ -153,6 +156,9 @@ func (cs *ContractSet) parseFile(path, pkg string) error {
 	}
 	mkClause := func(rest string) (*Clause, error) {
 		c := &Clause{File: path, Line: lineNo}
+		if cur != nil {
+			c.Props = append([]string{}, cur.segProps...)
+		}
 		if m := reLabel.FindStringSubmatch(rest); m != nil {
 			c.Label = m[1]
 			rest = rest[len(m[0]):]
@@ -200,16 +206,22 @@ func (cs *ContractSet) parseFile(path, pkg string) error {
 		case "func", "dep", "iface":
 			cur = &Contract{Kind: kw, Name: rest, Pkg: pkg, Mode: "bv", LoopInv: map[int][]*Clause{}, LoopDec: map[int]*Clause{}, LoopMod: map[int][]string{}, Opts: map[string]string{}, File: path, Line: lineNo}
 			cur.Props = append(cur.Props, fileProps...)
+			cur.segProps = append([]string{}, fileProps...)
 			curRule = nil
 			if kw == "func" || kw == "iface" {
 				if pkg == "" {
 					return fail("func block in a deps file")
 				}
 				key := pkg + "::" + rest
-				if _, dup := cs.Funcs[key]; dup {
-					return fail("duplicate contract for %s", rest)
+				if old, dup := cs.Funcs[key]; dup {
+					// a second block for the same function (another property's clauses):
+					// the clauses and property tags accumulate in one contract
+					cur = old
+					cur.Props = append(cur.Props, fileProps...)
+					cur.segProps = append([]string{}, fileProps...)
+				} else {
+					cs.Funcs[key] = cur
 				}
-				cs.Funcs[key] = cur
 			} else {
 				if _, dup := cs.Deps[rest]; dup {
 					return fail("duplicate dep contract for %s", rest)
@@ -335,6 +347,7 @@ func (cs *ContractSet) parseFile(path, pkg string) error {
 			ps := strings.Fields(strings.ReplaceAll(rest, ",", " "))
 			if cur != nil {
 				cur.Props = append(cur.Props, ps...)
+				cur.segProps = ps
 			} else if curRule != nil {
 				curRule.Props = append(curRule.Props, ps...)
 			} else if lastFrame != nil {
@@ -446,6 +459,14 @@ func (cs *ContractSet) parseFile(path, pkg string) error {
 				lastClause = c
 				pending = append(pending, c)
 				cur.LoopDec[n] = c
+			case "iteration":
+				c, _ := mkClause(f[2])
+				lastClause = c
+				pending = append(pending, c)
+				if cur.LoopIter == nil {
+					cur.LoopIter = map[int][]*Clause{}
+				}
+				cur.LoopIter[n] = append(cur.LoopIter[n], c)
 			case "modifies":
 				cur.LoopMod[n] = append(cur.LoopMod[n], splitList(f[2])...)
 			default:
